@@ -321,6 +321,18 @@ fn check(case: &Case, ctx: &mut Ctx) {
             _ => {}
         }
 
+        // a record that arrived (was stored) ends the fetches of that key: none may stay in flight
+        if let Op::NewPut { k, .. } = op {
+            let ki = *k as usize % NKEYS;
+            let stale: Vec<&(usize, RecordType, usize)> = post_ongoing.iter().filter(|e| e.0 == ki && pre_ongoing.contains(*e) && !post_pending.iter().any(|p| p.0 == ki)).collect();
+            // (an entry that was ended and immediately rescheduled from the queue is legitimate: it needs
+            // a queued entry of that key before the call)
+            let requeued = pre_pending.iter().any(|p| p.0 == ki);
+            if !stale.is_empty() && !requeued {
+                ctx.fail("fetch_still_in_flight_after_the_record_arrived", format!("{at}: key {ki} was stored, yet its fetch {:?} is still in flight", stale[0].1));
+            }
+        }
+
         // I7: fetches past their deadline leave the in-flight set, holder reported, its queue dropped
         let mut timed_out_holders = BTreeSet::new();
         let mut timed_out_flights: HashSet<(usize, RecordType)> = HashSet::new();
